@@ -7,7 +7,7 @@ class FailureAddParticipantsIqProtocolEntity(ErrorIqProtocolEntity):
     </iq>
     '''
 
-    def __init__(self, _id, _from, _code, _text, _backoff= 0 ):
+    def __init__(self, _id, _from, _code, _text, _backoff = None):
         super(FailureAddParticipantsIqProtocolEntity, self).__init__(_from = _from,
                                                                      _id = _id, code = _code,
                                                                      text = _text, backoff = _backoff)
